@@ -74,8 +74,7 @@ func (v *VerifIdleClose) Run() { v.r.run() }
 // Next 返回下一次执行时间（零值表示任务结束）。
 func (v *VerifIdleClose) Next(t time.Time) time.Time { return v.r.Next(t) }
 
-// VerifReset 仅供仿真使用：清空注册表和拉流工厂。
+// VerifReset 仅供仿真使用：清空注册表（拉流工厂在包初始化时注册，保持不变）。
 func VerifReset() {
 	UnregistAll()
-	psFactories = nil
 }
